@@ -74,7 +74,9 @@ def c10_1(ctx: Ctx):
     ok = len(offs) == 2 and len(sizes) == 2
     for g in offs:
         if lin.under(g, "last_block is not None"):
-            ok = ok and linform(g.node.value) == {"last_block.offset": 1, "last_block.size": 1}
+            # where exactly the existing blocks end is C10.7's business (end of the last-starting block was defect F41)
+            t = src(g.node.value)
+            ok = ok and ("max(" in t and ".offset + " in t and ".size" in t or linform(g.node.value) == {"last_block.offset": 1, "last_block.size": 1})
         else:
             ok = ok and src(g.node.value) == "0"
     for g in sizes:
